@@ -5,7 +5,11 @@ from harness.vloop import VLoop, FakeTransport
 
 
 def new_loop():
+    import logging
+    logging.disable(logging.CRITICAL)          # the sessions log every protocol error
     loop = VLoop()
+    loop.unhandled = []
+    loop.set_exception_handler(lambda l, ctx: l.unhandled.append(repr(ctx.get('exception') or ctx.get('message'))))
     asyncio.set_event_loop(loop)
     return loop
 
